@@ -226,6 +226,7 @@ def parseROp (toks : List String) : Option Reg.ROp :=
   | ["add", ids, ch] => some (.add (natList ids) (natList ch))
   | ["status", s, ch] => some (.status (parseStatus s) (natList ch))
   | ["sync", t, out] => some (.sync (t.toNat?.getD 0) (out.toInt?.getD 0))
+  | ["sync", t, out, _elim] => some (.sync (t.toNat?.getD 0) (out.toInt?.getD 0))
   | ["release", t, ids, ch] => some (.release (t.toNat?.getD 0) (natList ids) (natList ch))
   | _ => none
 
